@@ -27,6 +27,7 @@
 (*   | class n bases meta slots tps body  (Generic[tps], nested classes, methods, properties)    *)
 (*                                                                                            *)
 (* Dialect restrictions (what io.generate_pyi can produce): declaration names are unique per    *)
+(* scope; an alias never targets a nested class;                                               *)
 (* scope; union members are >= 2, pairwise different, never unions/Any/nothing; `nothing`       *)
 (* appears only as the parameter of an empty container and as a return type; Literal only as a   *)
 (* whole type or a union member; a positional parameter without default never follows one with   *)
@@ -106,6 +107,8 @@ OpenClasses == {<<PathUpTo(k), Len(scopes[k].tps), FALSE>> : k \in 2 .. Len(scop
 LightNames == {c[1] : c \in {x \in ClosedClasses : x[3]}}
 Heavy(tag, name) == ~(tag = "cls" /\ name \in LightNames)
 RefClasses == ClosedClasses \cup OpenClasses
+TopClassNames == {scopes[1].body[i].n : i \in {j \in DOMAIN scopes[1].body : scopes[1].body[j].k = "class"}}
+NestedClassNames == {c[1] : c \in ClosedClasses} \ TopClassNames
 
 DeclaredTVars == {scopes[1].body[i].n : i \in {j \in DOMAIN scopes[1].body : scopes[1].body[j].k = "tvar"}}
 ClassTVars == UNION {SeqToSet(scopes[k].tps) : k \in 2 .. Len(scopes)}
@@ -174,6 +177,10 @@ RootOK(tag, name, isLeafTerm) ==
     [] goal.what = "ret" -> TRUE
     [] goal.what = "alias" -> /\ tag \in {"gen", "union", "callable", "callany", "tuple", "htuple", "type", "cls"}
                               /\ ~(tag = "cls" /\ name = "NoneType")
+                              \* pytype never emits an alias whose target is a nested class (it
+                              \* emits the constant X: type[A.N]); the printer would write such an
+                              \* alias as `from A import N as X`
+                              /\ ~(tag = "cls" /\ name \in NestedClassNames)
     [] goal.what = "tvar" -> /\ tag \in {"cls", "gen"} /\ name \notin {"NoneType"}
                              /\ (isLeafTerm => tag = "cls")
                              /\ name \notin RootNames
